@@ -171,8 +171,7 @@ def main():
                     continue
                 seen_sig.add(sig)
                 what = {"internal": "the compiler dies with an internal exception", "render": "the diagnostic cannot be rendered", "hang": "the compiler does not finish"}[kind]
-                rep.failed_ob(Finding("C18", oid, f"{sig}|{name}|{' '.join(flags)}", f"{name} [{' '.join(flags)}]: {what}: {detail}", replay={"source": src_of[name], "flags": flags}, replayed=True))
-                rep.obligations -= 1
+                rep.bounded_violation(Finding("C18", oid, f"{sig}|{name}|{' '.join(flags)}", f"{name} [{' '.join(flags)}]: {what}: {detail}", replay={"source": src_of[name], "flags": flags}, replayed=True))
     for k in ("ok", "diag"):
         rep.bounded_count(f"compilations ending in {'generated code' if k == 'ok' else 'a rendered NMFUError'}", counts.get(k, 0))
     rep.coverage["outcomes"] = counts
